@@ -61,9 +61,9 @@ Ltac in_blocks := apply occ_pos_iff; unfold all_blocks; apply in_or_app; left;
   first [ left; match goal with H : t_pc _ = _ |- _ => rewrite H end; cbn [pc_blocks]; left; reflexivity
         | right; apply in_map_iff; eexists; split; [|eapply nth_error_In; eassumption]; reflexivity ].
 
-Lemma astep_beffect P fails c t : beffect c (astep P fails c t).
+Lemma astep_beffect fx P fails c t : beffect c (astep fx P fails c t).
 Proof.
-  unfold astep, alloc_path. break_step; try give_absurd;
+  unfold astep, alloc_path, free_path. break_step; try give_absurd;
     try (apply BE_move; [reflexivity | reflexivity | intros bb; try reflexivity; occ_norm bb; lia]).
   all: try (eapply BE_allocfail; [reflexivity | reflexivity | intros bb; occ_norm bb; lia]).
   all: try (eapply BE_alloc; [reflexivity | reflexivity | intros bb; occ_norm bb; lia]).
@@ -76,9 +76,9 @@ Definition BInv (c : acfg) : Prop := forall b,
   ((length (a_allocs c) <= b)%nat -> occ b (all_blocks c) = 0) /\
   (In b (a_freed c) -> occ b (all_blocks c) = 0 /\ (b < length (a_allocs c))%nat).
 
-Lemma binv_step P fails c t : BInv c -> BInv (astep P fails c t).
+Lemma binv_step fx P fails c t : BInv c -> BInv (astep fx P fails c t).
 Proof.
-  intros H. unfold BInv in *. destruct (astep_beffect P fails c t) as [Ha Hf Ho | sz Ha Hf Ho | sz Ha Hf Ho | x Ha Hf Hx Ho];
+  intros H. unfold BInv in *. destruct (astep_beffect fx P fails c t) as [Ha Hf Ho | sz Ha Hf Ho | sz Ha Hf Ho | x Ha Hf Hx Ho];
     intros b; destruct (H b) as (H1 & H2 & H3); rewrite Ha, Hf, Ho.
   - auto.
   - rewrite app_length; cbn [length]. pose proof (occ_single_le b (length (a_allocs c))) as Hs.
@@ -100,8 +100,10 @@ Lemma all_blocks_init progs : all_blocks (ainit progs) = [].
 Proof. unfold all_blocks, ainit; cbn [a_thr a_lifo]. rewrite flatT_map_nil; reflexivity. Qed.
 Lemma binv_init progs : BInv (ainit progs).
 Proof. intros b. rewrite all_blocks_init, occ_nil. cbn [ainit a_freed a_allocs]. split; [lia|]. split; [lia|]. intros []. Qed.
+Lemma binv_run_gen fx P fails progs sched : BInv (arun_gen fx P fails (ainit progs) sched).
+Proof. unfold arun_gen. apply fold_left_inv; [intros a b; apply binv_step | apply binv_init]. Qed.
 Lemma binv_run P fails progs sched : BInv (arun P fails (ainit progs) sched).
-Proof. unfold arun. apply fold_left_inv; [intros a b; apply binv_step | apply binv_init]. Qed.
+Proof. apply binv_run_gen. Qed.
 
 Lemma occ_flat_two {A} (f : A -> list nat) l t u p q b : t <> u ->
   nth_error l t = Some p -> nth_error l u = Some q -> occ b (f p) + occ b (f q) <= occ b (flatT f l).
